@@ -423,11 +423,15 @@ class Impl:
             return True
         return below and fn == fpath
 
-    def run(self, text, timeout_s=10, ds=None):
+    def run(self, text, timeout_s=10, ds=None, ctx=None):
         """-> dict(outcome=('value', wire) | ('error', class), calls=[...], exc=exception or None);
-        ds: the datastore the query runs against (default: the first one)"""
+        ds: the datastore the query runs against (default: the first one); ctx: (query name, start, end of the
+        query period as offsets from T_START in us) - default (QNAME, T_START, T_END)"""
         self.calls = []
         self.cur_ds = ds if ds is not None else self.ds
+        qname, start, end = QNAME, T_START, T_END
+        if ctx:
+            qname, start, end = ctx[0], T_START + timedelta(microseconds=ctx[1]), T_START + timedelta(microseconds=ctx[2])
 
         def on_alarm(signum, frame):
             raise CaseTimeout()
@@ -437,7 +441,7 @@ class Impl:
         exc = None
         try:
             try:
-                v = self.Q.query(QNAME, text, T_START, T_END, self.cur_ds)
+                v = self.Q.query(qname, text, start, end, self.cur_ds)
                 out = ("value", v)
             except CaseTimeout:
                 out = ("timeout", None)
@@ -451,7 +455,7 @@ class Impl:
             signal.alarm(0)
             signal.signal(signal.SIGALRM, old)
         calls, self.calls = self.calls, None
-        return {"outcome": out, "calls": calls, "exc": exc}
+        return {"outcome": out, "calls": calls, "exc": exc, "ctx": (qname, start.isoformat(), end.isoformat())}
 
     # -- the model's side ---------------------------------------------------------------
     def table_wire(self):
@@ -492,8 +496,11 @@ class Impl:
             want = [1, ERR_CODE.get(payload, 10)]
         else:
             raise Unsupported(kind)
-        case = sx([0, self.table_wire(), self.max_digits, [cps(b) for b in buckets], script,
-                   cps(QNAME), cps(T_START.isoformat()), cps(T_END.isoformat()), cps(text)])
+        qname, start, end = r.get("ctx") or (QNAME, T_START.isoformat(), T_END.isoformat())
+        if getattr(self, "_table_sx", None) is None:        # the same for every case: encoded once
+            self._table_sx = sx(self.table_wire())
+        case = "(" + " ".join(["0", self._table_sx, sx(self.max_digits), sx([cps(b) for b in buckets]), sx(script),
+                               sx(cps(qname)), sx(cps(start)), sx(cps(end)), sx(cps(text))]) + ")"
         return case, log, want
 
 
